@@ -9,11 +9,13 @@ PID = 'C02'
 WRAPX = '-Wl,--wrap=exit,--wrap=abort'
 OV = {0, -1, -2, -3, -128, -129, -130, -131, -132, -133, -134, -135, -136, -137, -138}
 HEAP_BUDGET = 1 << 30
+CAP = ['--heapcap', str(HEAP_BUDGET)]      # a request that would pass the budget ends the case (reported as P=live+request), it is not attempted
 
 
 def _imp():
-    global vspec, vsynth
-    import vspec, vsynth
+    global vspec, vsynth, c02_lattice, rep
+    import vspec, vsynth, c02_lattice
+    rep = c02_lattice.rep
 
 
 # ------------------------------------------------------------------ packet sets
@@ -68,17 +70,14 @@ def extreme_books():
                 w.w(0, 1)
                 w.w(0, 1)
                 L = length or max(1, vspec.ilog(entries - 1))
-                for _ in range(entries):
-                    w.w(L - 1, 5)
+                w.w(rep(L - 1, 5, entries), 5 * entries)          # (one big-integer write instead of a Python loop: same bits)
             else:  # sparse: only the first two entries used
                 w.w(0, 1)
                 w.w(1, 1)
-                for i in range(entries):
-                    if i < 2:
-                        w.w(1, 1)
-                        w.w(0, 5)
-                    else:
-                        w.w(0, 1)
+                for i in range(min(entries, 2)):
+                    w.w(1, 1)
+                    w.w(0, 5)
+                w.w(0, max(0, entries - 2))
             w.w(lookup, 4)
             if lookup in (1, 2):
                 w.w(vsynth.fpack(-1.0), 32)
@@ -87,9 +86,17 @@ def extreme_books():
                 w.w(0, 1)
                 nm = nmults
                 if nm is None:
-                    nm = (vspec.lookup1_values(entries, dim) if dim > 0 else 0) if lookup == 1 else entries * dim
-                for k in range(nm):
-                    w.w(k % (1 << vbits), vbits)
+                    nm = (c02_lattice.iroot_values(entries, dim) if dim > 0 else 0) if lookup == 1 else entries * dim
+                m = 1 << vbits
+                if nm < 4 * m:
+                    for k in range(nm):
+                        w.w(k % m, vbits)
+                else:
+                    per = sum(k << (k * vbits) for k in range(m))       # one period 0..m-1
+                    q, r = divmod(nm, m)
+                    w.w(rep(per, m * vbits, q), m * vbits * q)
+                    for k in range(r):
+                        w.w(k, vbits)
         return raw
     for entries in (1, 2, 1 << 16, 1 << 20, 1 << 22, 1 << 23, (1 << 24) - 1):
         for kind in ('ordered', 'sparse') + (('flat',) if entries <= (1 << 20) else ()):
@@ -256,6 +263,20 @@ def gen_cases(sets, meta, tier):
         for g in (-1, 0, 1, 100, 9223372036854775807, -9223372036854775807 - 1):
             for e in ('', 'e'):
                 yield 'granule', si, f'I Hb0 H1 H2 S B Y3 N O Ra Y{e}g{g}:4 N O Ra Y5 N O Ra'
+        # H2. granule positions of CONSECUTIVE packets: every ordered pair (and, on a smaller set, triple) of boundary values x e_o_s flags; the
+        #     end-of-stream trim works on the difference of the running and the packet's granule position (64-bit wrap-around included)
+        GB = (-1, -2, 0, 1, 100, 2 ** 31, 2 ** 62, 2 ** 63 - 1001, 2 ** 63 - 1, -2 ** 63, -2 ** 63 + 1000)
+        for g1 in GB:
+            for g2 in GB:
+                for e1 in ('', 'e'):
+                    for e2 in ('', 'e'):
+                        yield 'granpair', si, f'I Hb0 H1 H2 S B Y{e1}g{g1}:3 N O Ra Y{e2}g{g2}:4 N O Ra Y5 N O Ra'
+        GS = (-1, 0, 100, 2 ** 63 - 1, -2 ** 63)
+        for g1 in GS:
+            for g2 in GS:
+                for g3 in GS:
+                    for e3 in ('', 'e'):
+                        yield 'grantriple', si, f'I Hb0 H1 H2 S B Yg{g1}:3 N O Ra Yg{g2}:4 N O Ra Y{e3}g{g3}:5 N O Ra Y4 N O Ra'
         yield 'pad', si, 'I Hb0 H1 H2 S B Y3 N Y4z300 N O Ra'
         # J. plateau: the same decode loop 3, 4, 5 times
         for k in (3, 4, 5):
@@ -314,8 +335,10 @@ def named(name, default):
     return default
 
 
-def judge(chk, fam, si, name, ops, line, stats, plateau):
+def judge(chk, fam, si, name, ops, line, stats, plateau, table=None):
     rep = {'set': name, 'ops': ops}
+    if table:
+        rep['tier'] = chk.tier
     if line is None:
         chk.violation(f'nooutput:{fam}', f'{name}: executor gave no answer for "{ops}"', rep)
         return
@@ -329,7 +352,7 @@ def judge(chk, fam, si, name, ops, line, stats, plateau):
             chk.violation(named(name, f'signal:{rc}:{fam}'), f'{name}: "{ops}" -> process died rc={rc} {txt[-300:]}', rep)
         return
     if line.startswith('TIMEOUT'):
-        stats['timeouts'].append((fam, si, name, ops))
+        stats['timeouts'].append((fam, si, name, ops, table))
         return
     d = dict(tok.split('=', 1) for tok in line.split(' ') if '=' in tok)
     if d.get('X') == '1':
@@ -353,6 +376,73 @@ def judge(chk, fam, si, name, ops, line, stats, plateau):
         stats['allbytes_sigs'] += int(d.get('S', 0))
 
 
+def peak_of(line):
+    m = re.search(r' P=(\d+)', line or '')
+    return int(m.group(1)) if m else 0
+
+
+def run_lattice(chk, tier, exe, exe_plain, stats, plateau, fams):
+    """codebook size lattice (pylib/c02_lattice.py): every lattice point x lookup type x length transmission x role, on the ASan build (all
+    oracles) and on the uninstrumented build (8 MiB stack, heap budget, watchdog).  Tables of at most 64 MB each."""
+    lat = list(c02_lattice.lattice_sets(tier, packets_for))
+    L = c02_lattice
+    groups, cur, size = [], [], 0
+    for i, (name, pk, info) in enumerate(lat):
+        n = sum(len(p) for p in pk)
+        if cur and size + n > (64 << 20):
+            groups.append(cur)
+            cur, size = [], 0
+        cur.append(i)
+        size += n
+    if cur:
+        groups.append(cur)
+    c = {'sets': len(lat), 'tables': len(groups), 'rejected': 0, 'accepted_init_ok': 0, 'accepted_cheap': 0, 'over_budget_sets': 0, 'over_budget_accepted': 0,
+         'seed_circumstance_presented': 0, 'max_peak': 0, 'plain_runs': 0, 'cells_both_outcomes': 0}
+    cells = {}
+    for gi, g in enumerate(groups):
+        tab = os.path.join(vlib.zoo_dir(), 'c02_lat_%s_%d.bin' % (tier, gi))
+        write_table(tab, [(lat[i][0], lat[i][1]) for i in g])
+        lines = [f'{k} {L.OPS}' for k in range(len(g))]
+        res = vlib.run_cases(exe, lines, ['--table', tab, '--timeout', '10'] + CAP, tag='c02l')
+        resp = vlib.run_cases(exe_plain, lines, ['--table', tab, '--timeout', '10'] + CAP, tag='c02lp')
+        for k, i in enumerate(g):
+            name, _, info = lat[i]
+            fams['booklat'] = fams.get('booklat', 0) + 1
+            chk.cov['evaluations'] += 2
+            c['plain_runs'] += 1
+            judge(chk, 'booklat', k, name, L.OPS, res[k], stats, plateau, tab)
+            r = resp[k]
+            if r is None or r.startswith('DIED'):
+                chk.violation('plain:died:booklat', f'{name}: "{L.OPS}" on the uninstrumented build (8 MiB stack): {str(r)[:300]}', {'set': name, 'ops': L.OPS, 'flavour': 'plain', 'tier': tier})
+            elif r.startswith('TIMEOUT'):
+                stats['timeouts'].append(('booklat:plain', k, name, L.OPS, tab))
+            elif peak_of(r) > HEAP_BUDGET:
+                chk.violation('heap_budget:booklat', f'{name}: "{L.OPS}" peak heap {peak_of(r)} bytes (uninstrumented build)', {'set': name, 'ops': L.OPS, 'flavour': 'plain', 'tier': tier})
+            # coverage facts from the instrumented run
+            c['over_budget_sets'] += info['over']
+            rc = (re.search(r'R=(\S+)', res[k] or '') or [None, ''])[1].split(',') if (res[k] or '').startswith('R=') else []
+            h2, si_ = (rc[3] if len(rc) > 3 else None), (rc[4] if len(rc) > 4 else None)
+            # what the seeded class needs: a lookup-1 book beyond the 24-bit size budget with a complete tree and its full value table, given to headerin
+            if info['lookup'] == 1 and info['over'] and info['written'] == info['declared'] and h2 not in (None, '~'):
+                c['seed_circumstance_presented'] += 1
+            cell = cells.setdefault((info['lookup'], info['kind'], info['place']), set())
+            if h2 is not None and h2.startswith('-'):
+                c['rejected'] += 1
+                cell.add('rej')
+            elif h2 == '0' and si_ == '0':
+                c['accepted_init_ok'] += 1
+                c['over_budget_accepted'] += info['over']
+                c['accepted_cheap'] += peak_of(res[k]) < (1 << 20)
+                cell.add('acc')
+            c['max_peak'] = max(c['max_peak'], peak_of(res[k]))
+    c['cells'] = len(cells)
+    c['cells_both_outcomes'] = sum(1 for v in cells.values() if v == {'rej', 'acc'})
+    c['cells_never_accepted'] = sorted('l%d/%s/%s' % k for k, v in cells.items() if 'acc' not in v)
+    c['bound'] = 'dim x entries = %s x %s; lookup 0/1/2; %s; roles %s; tier bounds in c02_lattice.lattice_sets' % (L.DIMS, L.ENTRIES, '/'.join(L.KINDS), '/'.join(L.PLACES))
+    chk.cov['booklat'] = c
+    return c
+
+
 def run(tier):
     chk = vlib.Check(PID, tier, 'exploration')
     vlib.build('asan', 'plain')
@@ -369,10 +459,11 @@ def run(tier):
     plateau = {}
     cases = list(gen_cases(sets, meta, tier))
     # cheap families first so that a deadline cuts the big enumerations, not the targeted ones
-    order = {'extreme': 0, 'granule': 1, 'pad': 1, 'plateau3': 1, 'plateau4': 1, 'plateau5': 1, 'prefix': 2, 'field': 3, 'hdrorder': 4, 'trunc': 5, 'tailfill': 5, 'hrseq': 5, 'bitflip': 6, 'pktflip': 7, 'allbytes': 8, 'callseq': 9}
+    order = {'extreme': 0, 'granule': 1, 'pad': 1, 'plateau3': 1, 'plateau4': 1, 'plateau5': 1, 'prefix': 2, 'field': 3, 'hdrorder': 4, 'trunc': 5, 'tailfill': 5, 'granpair': 1, 'grantriple': 1, 'hrseq': 5, 'bitflip': 6, 'pktflip': 7, 'allbytes': 8, 'callseq': 9}
     cases.sort(key=lambda c: order.get(c[0], 5))
     cut = False
     done = 0
+    lat = run_lattice(chk, tier, exe, exe_plain, stats, plateau, fams)
     CH = 40000
     for i in range(0, len(cases), CH):
         if time.time() > deadline or len(stats['timeouts']) > 150:
@@ -381,7 +472,7 @@ def run(tier):
             break
         chunk = cases[i:i + CH]
         lines = [f'{si} {ops}' for (_, si, ops) in chunk]
-        res = vlib.run_cases(exe, lines, ['--table', table, '--timeout', '10'], tag='c02')
+        res = vlib.run_cases(exe, lines, ['--table', table, '--timeout', '10'] + CAP, tag='c02')
         for (fam, si, ops), r in zip(chunk, res):
             fams[fam] = fams.get(fam, 0) + 1
             chk.cov['evaluations'] += 1
@@ -389,31 +480,33 @@ def run(tier):
         done += len(chunk)
     # stack: the size-extreme headers again on the uninstrumented build with the default 8 MiB stack
     ext = [(f, si, ops) for (f, si, ops) in cases if f == 'extreme']
-    res = vlib.run_cases(exe_plain, [f'{si} {ops}' for (_, si, ops) in ext], ['--table', table, '--timeout', '10'], tag='c02p')
+    res = vlib.run_cases(exe_plain, [f'{si} {ops}' for (_, si, ops) in ext], ['--table', table, '--timeout', '10'] + CAP, tag='c02p')
     for (fam, si, ops), r in zip(ext, res):
         chk.cov['evaluations'] += 1
         if r is None or r.startswith('DIED'):
             chk.violation(named(sets[si][0], 'plain:died:' + sets[si][0]), f'{sets[si][0]}: "{ops}" on the uninstrumented build (8 MiB stack): {str(r)[:300]}', {'set': sets[si][0], 'ops': ops, 'flavour': 'plain'})
         elif r.startswith('TIMEOUT'):
-            stats['timeouts'].append((fam + ':plain', si, sets[si][0], ops))
+            stats['timeouts'].append((fam + ':plain', si, sets[si][0], ops, None))
+        elif peak_of(r) > HEAP_BUDGET:
+            chk.violation(named(sets[si][0], 'heap_budget:extreme'), f'{sets[si][0]}: "{ops}" peak heap {peak_of(r)} bytes (uninstrumented build)', {'set': sets[si][0], 'ops': ops, 'flavour': 'plain'})
     # timeouts: re-run alone with a 10x limit before calling it non-termination
     seen = set()
     hang_keys = {}
-    for fam, si, name, ops in stats['timeouts']:
-        if (si, ops) in seen:
+    for fam, si, name, ops, tb in stats['timeouts']:
+        if (name, ops) in seen:
             continue
-        seen.add((si, ops))
+        seen.add((name, ops))
         k = named(name, f'hang:{fam}:{name}')
         hang_keys[k] = hang_keys.get(k, 0) + 1
         if hang_keys[k] > 2 or len(hang_keys) > 4:
             # the same named class already re-checked twice at the long limit; report the rest on the strength of the 10 s watchdog
             chk.violation(k, f'{name}: "{ops}" did not return within 10 s of CPU (class re-checked at 100 s)', {'set': name, 'ops': ops})
             continue
-        r = vlib.run_cases(exe_plain if fam.endswith(':plain') else exe, [f'{si} {ops}'], ['--table', table, '--timeout', '100'], jobs=1, tag='c02t')[0]
+        r = vlib.run_cases(exe_plain if fam.endswith(':plain') else exe, [f'{si} {ops}'], ['--table', tb or table, '--timeout', '100'] + CAP, jobs=1, tag='c02t')[0]
         if r is None or r.startswith('TIMEOUT'):
             chk.violation(k, f'{name}: "{ops}" did not return within 100 s of CPU', {'set': name, 'ops': ops})
         elif r.startswith('DIED'):
-            judge(chk, fam, si, name, ops, r, stats, plateau)
+            judge(chk, fam, si, name, ops, r, stats, plateau, tb)
     for si, d in plateau.items():
         if d.get('plateau4', -1) != d.get('plateau5', -2):
             chk.violation('heap_growth', f'{sets[si][0]}: live heap after 4 vs 5 repetitions of the decode loop: {d}', {'set': sets[si][0], 'ops': 'plateau'})
@@ -427,13 +520,21 @@ def run(tier):
     chk.cov.update({'distinct_nontrivial': len(stats['outcomes']), 'exhaustive': not cut, 'families': fams, 'cases_enumerated': len(cases), 'cases_run': done,
                     'byte_strings_enumerated': stats['enumerated_strings'], 'distinct_rc_signatures_in_allbytes': stats['allbytes_sigs'], 'quantvals_pairs': int(qd.get('pairs', 0)), 'timeouts_rechecked': len(seen),
                     'samples': [{'family': f, 'set': sets[si][0], 'ops': ops} for (f, si, ops) in cases[:: max(1, len(cases) // 10)]][:12],
-                    'rule': 'packet sets: 4 tiny + 4 base synthesised setups, 2 real-encoder setups, hand-written size-extreme codebooks, maximal counts; families: every header prefix, every single-bit flip of id/setup headers, every header field x {0,1,max,max-1,mid,v+-1}, '
+                    'rule': 'packet sets: 4 tiny + 4 base synthesised setups, 2 real-encoder setups, hand-written size-extreme codebooks, the codebook size lattice (booklat: dim x entries x lookup type x length transmission x role, ASan + plain), maximal counts; families: every header prefix, every single-bit flip of id/setup headers, every header field x {0,1,max,max-1,mid,v+-1}, '
                             'all headerin orders <=3(4), ALL byte strings of length <=2(3) as audio packets after 0/1/2 valid packets, every truncation / bit flip of audio packets, granule/eos extremes, decode-loop plateau, all API call sequences <= depth 3(4) after 9 prefixes (lifetime filter only); '
-                            'oracle: no ASan/UBSan(bounds,null,div0) report, no signal, CPU watchdog (re-checked at 10x), no exit(), documented codes, heap peak <= 1 GiB and plateau; distinct_nontrivial = distinct (family, return-code signature) outcomes'})
+                            'oracle: no ASan/UBSan(bounds,null,div0) report, no signal, CPU watchdog (re-checked at 10x), no exit(), documented codes, heap peak <= 1 GiB (a request beyond it is not attempted: the executor ends the case and reports live+request) and plateau; distinct_nontrivial = distinct (family, return-code signature) outcomes'})
     chk.assumptions += ['UBSan subset = bounds, null, integer-divide-by-zero (what the property names)', 'leaks after the clear calls are C13\'s subject, not judged here',
                         'heap budget: 1 GiB for header sets below 1 MiB (24-bit entry counts x a few 4-byte arrays)', 'stack: uninstrumented build, default 8 MiB; ASan frames are larger, so stack verdicts come from the plain build']
     chk.guard(len(stats['outcomes']) > 20, 'many distinct outcome signatures (not vacuous)')
     chk.guard(fams.get('extreme', 0) > 50, 'size-extreme headers executed')
+    n_l1_over = sum(1 for (_, _, i) in c02_lattice.lattice_sets(tier, lambda s_, n_: []) if i['lookup'] == 1 and i['over'] and i['written'] == i['declared'])
+    chk.guard(lat['seed_circumstance_presented'] == n_l1_over and n_l1_over >= 300, 'codebook size lattice: every lookup-1 book beyond the 24-bit size budget (complete tree, full value table) reached headerin')
+    chk.guard(lat['rejected'] >= 500 and lat['accepted_cheap'] >= 500, 'codebook size lattice: rejected headers and accepted-and-cheap headers both seen')
+    chk.guard(lat['cells_both_outcomes'] == lat['cells'] - 8 and len(lat['cells_never_accepted']) == 8 and all(x.startswith('l0/') and x.endswith(('/res', '/floor0')) for x in lat['cells_never_accepted']),
+              'codebook size lattice: every lookup x transmission x role cell has accepted and rejected members (value-less books cannot be residue stage / floor 0 books)')
+    for f_ in os.listdir(vlib.zoo_dir()):
+        if f_.startswith('c02_lat_' + tier + '_'):
+            os.unlink(os.path.join(vlib.zoo_dir(), f_))
     return chk.finish()
 
 
@@ -445,11 +546,20 @@ def replay(path):
     table = os.path.join(vlib.zoo_dir(), 'c02_table.bin')
     write_table(table, sets)
     rp = r['replay']
+    if str(rp.get('set', '')).startswith('lat_'):
+        # a lattice set is regenerated from its name (same tier = same value-table bound)
+        hit = [(n, pk) for (n, pk, _) in c02_lattice.lattice_sets(rp.get('tier', 'quick'), packets_for) if n == rp['set']]
+        if not hit:
+            print('unknown lattice set')
+            return 1
+        sets = hit
+        table = os.path.join(vlib.zoo_dir(), 'c02_lat_replay.bin')
+        write_table(table, sets)
     names = [n for n, _ in sets]
     if rp.get('ops') in (None, 'plateau') or rp.get('set') not in names:
         print('not replayable as a single case')
         return 1
     exe = vlib.harness('plain' if rp.get('flavour') == 'plain' else 'asan', 'c02_dec', extra=WRAPX)
-    out = vlib.run_cases(exe, [f"{names.index(rp['set'])} {rp['ops']}"], ['--table', table, '--timeout', '100'], jobs=1)
+    out = vlib.run_cases(exe, [f"{names.index(rp['set'])} {rp['ops']}"], ['--table', table, '--timeout', '100'] + CAP, jobs=1)
     print(out[0])
-    return 0 if (out[0] and not out[0].startswith(('DIED', 'TIMEOUT')) and ' X=0' in out[0]) else 1
+    return 0 if (out[0] and not out[0].startswith(('DIED', 'TIMEOUT')) and ' X=0' in out[0] and peak_of(out[0]) <= HEAP_BUDGET) else 1
